@@ -9,3 +9,19 @@ func (w *World) execCall(st *Step) {
 		w.T.Event("unknown call %q ignored", st.Name)
 	}
 }
+
+// execEnum dispatches the other enumeration steps.
+func (w *World) execEnum(stepIdx int, st *Step) {
+	switch st.Name {
+	case "create-binding":
+		w.execCreateBinding(stepIdx, st)
+	case "cas":
+		w.execCAS(stepIdx, st)
+	case "jws":
+		w.execJWS(stepIdx, st)
+	case "jwk":
+		w.execJWK(stepIdx, st)
+	default:
+		w.T.Event("unknown enumeration %q ignored", st.Name)
+	}
+}
